@@ -23,7 +23,7 @@ fn h64(x: f64) -> String {
 const KEYS: [&str; 10] = ["1K", "2K", "3K", "4K", "5K", "6K", "7K", "8K", "9K", "10K"];
 
 #[allow(clippy::too_many_arguments)]
-fn case(run: &mut Run, id: &str, map: &Beatmap, keys: Option<usize>, ho: bool, inv: bool, clock: f64, passed: Option<u32>, rng: &mut Rng, repro: &str) {
+fn case(run: &mut Run, id: &str, map: &Beatmap, keys: Option<usize>, ho: bool, inv: bool, rnd: Option<i32>, clock: f64, passed: Option<u32>, rng: &mut Rng, repro: &str) {
     let mut tags: Vec<LazerTag> = Vec::new();
     if let Some(k) = keys {
         tags.push(LazerTag::Acronym(KEYS[k - 1]));
@@ -33,6 +33,9 @@ fn case(run: &mut Run, id: &str, map: &Beatmap, keys: Option<usize>, ho: bool, i
     }
     if inv {
         tags.push(LazerTag::Acronym("IN"));
+    }
+    if let Some(seed) = rnd {
+        tags.push(LazerTag::RandomSeed(seed));
     }
     let mods: GameMods = ModsSpec::Lazer(tags).build(3);
     let mut d = Difficulty::new().mods(mods.clone()).clock_rate(clock);
@@ -94,6 +97,8 @@ fn case(run: &mut Run, id: &str, map: &Beatmap, keys: Option<usize>, ho: bool, i
             gidx.push(1 + rng.below(n_out as u64) as usize);
         }
         gidx.push(n_out);
+        // one index beyond the end: `nth` returns None there
+        gidx.push(n_out + 1);
         gidx.sort_unstable();
         gidx.dedup();
         for i in &gidx {
@@ -109,6 +114,7 @@ fn case(run: &mut Run, id: &str, map: &Beatmap, keys: Option<usize>, ho: bool, i
     run.count(&format!("pipem:keys={}", trace.total_columns));
     run.count(&format!("pipem:key-mod:{}", keys.map_or("none".to_owned(), |k| k.to_string())));
     run.count(&format!("pipem:holdoff={ho}:invert={inv}"));
+    run.count(&format!("pipem:random:{}", match rnd { None => "none", Some(0) => "seed 0", Some(i32::MAX) => "seed i32::MAX", Some(i32::MIN) => "seed i32::MIN", Some(x) if x < 0 => "seed <0", _ => "seed >0" }));
     run.count(&format!("pipem:take:{}", match passed { None => "unset", Some(0) => "0", Some(k) if (k as usize) < n_out.max(1) => "<n", _ => ">=n" }));
     run.count(&format!("pipem:stars:{}", if attrs.stars == 0.0 { "0" } else { ">0" }));
     run.count("pipem:lines");
@@ -116,7 +122,7 @@ fn case(run: &mut Run, id: &str, map: &Beatmap, keys: Option<usize>, ho: bool, i
     run.line(
         id,
         format!(
-            "PIPE maniac {} {} {} {} {} {} {} {} {} {} {} {} {}",
+            "PIPE maniac {} {} {} {} {} {} {} {} {} {} {} {} {} {}",
             keys.map_or("-".to_owned(), |k| k.to_string()),
             h32(map.hp),
             h32(map.cs),
@@ -127,6 +133,7 @@ fn case(run: &mut Run, id: &str, map: &Beatmap, keys: Option<usize>, ho: bool, i
             passed.map_or("-".to_owned(), |k| k.to_string()),
             u8::from(ho),
             u8::from(inv),
+            rnd.map_or("-".to_owned(), |x| x.to_string()),
             if gidx.is_empty() { "-".to_owned() } else { gidx.iter().map(|i| i.to_string()).collect::<Vec<_>>().join(",") },
             timing,
             if objs.is_empty() { "-".to_owned() } else { objs.join(";") }
@@ -172,14 +179,21 @@ pub fn run(run: &mut Run, tier: &str, seed: u64, only: Option<&str>) {
             2 => (true, true),
             _ => (false, false),
         };
+        let rnd = match rng.below(8) {
+            0 => Some(0),
+            1 => Some(-1 - rng.below(1 << 30) as i32),
+            2 => Some(*rng.pick(&[i32::MAX, i32::MIN, 1, 1337])),
+            3 => Some(rng.below(1 << 31) as i32),
+            _ => None,
+        };
         let clock = *rng.pick(&[1.0, 1.0, 1.5, 0.75, 1.25, 0.5, 2.0]);
         let passed = match rng.below(3) {
             0 => None,
             1 => Some(rng.below(6) as u32),
             _ => Some(rng.below(map.hit_objects.len() as u64 * 3 + 3) as u32),
         };
-        let repro = format!("{text}\n# keys={keys:?} holdoff={ho} invert={inv} clock_rate={clock} passed_objects={passed:?}");
-        case(run, &id, &map, keys, ho, inv, clock, passed, &mut rng, &repro);
+        let repro = format!("{text}\n# keys={keys:?} holdoff={ho} invert={inv} random_seed={rnd:?} clock_rate={clock} passed_objects={passed:?}");
+        case(run, &id, &map, keys, ho, inv, rnd, clock, passed, &mut rng, &repro);
     }
     for (i, (mode, text)) in resource_maps().into_iter().enumerate() {
         if mode != 0 {
@@ -187,13 +201,13 @@ pub fn run(run: &mut Run, tier: &str, seed: u64, only: Option<&str>) {
         }
         let Ok(map) = decode(&truncate_objects(&text, if thorough { 600 } else { 200 })) else { continue };
         for k in 0..=10usize {
-            for (j, (ho, inv)) in [(false, false), (true, false), (false, true)].into_iter().enumerate() {
+            for (j, (ho, inv, rnd)) in [(false, false, None), (true, false, None), (false, true, None), (false, false, Some(0)), (false, true, Some(i32::MIN))].into_iter().enumerate() {
                 let id = format!("pipe-maniac-res-{i}-{k}-{j}");
                 if only.is_some_and(|o| o != id) {
                     continue;
                 }
                 let mut rng = Rng::new(seed ^ hash64(&id));
-                case(run, &id, &map, (k > 0).then_some(k), ho, inv, 1.0, None, &mut rng, &format!("resource osu! map (truncated), key mod {k}, holdoff={ho} invert={inv}"));
+                case(run, &id, &map, (k > 0).then_some(k), ho, inv, rnd, 1.0, None, &mut rng, &format!("resource osu! map (truncated), key mod {k}, holdoff={ho} invert={inv} random_seed={rnd:?}"));
             }
         }
     }
